@@ -77,7 +77,9 @@ func verifC21() {
 
 	n := sc[1]
 	// an operation is still queued when the closers start
-	pc.ops.Enqueue(func() { verif.Yield() })
+	if verif.Param("three_closers", 0) == 1 {
+		pc.ops.Enqueue(func() { verif.Yield() })
+	}
 	verif.Preemptible(true)
 	anyGraceful := false
 	var wg sync.WaitGroup
